@@ -81,7 +81,9 @@ impl<'arena, 'input: 'arena> Lexer<'arena, 'input> {
                 return SpannedToken { token, span: Range::from(start..self.pos) };
             }
             if b.is_ascii_digit() {
-                let token = self.scan_number(start);
+                // A malformed number is reported and skipped; scanning resumes in this loop
+                // (not by recursion, which a long run of them would turn into a stack overflow).
+                let Some(token) = self.scan_number(start) else { continue };
                 return SpannedToken { token, span: Range::from(start..self.pos) };
             }
             if Self::is_alpha_or_underscore(b) {
@@ -375,7 +377,7 @@ impl<'arena, 'input: 'arena> Lexer<'arena, 'input> {
         }
     }
 
-    fn scan_number(&mut self, start: usize) -> Token<'arena> {
+    fn scan_number(&mut self, start: usize) -> Option<Token<'arena>> {
         let len = self.len;
 
         // Try consume the integer part first
@@ -400,7 +402,7 @@ impl<'arena, 'input: 'arena> Lexer<'arena, 'input> {
                 );
                 // Nothing is skipped here: the byte after the dot may be the end of the
                 // input or the first byte of a multi-byte character.
-                return self.next_token().token;
+                return None;
             }
             while self.pos < len && self.src[self.pos].is_ascii_digit() {
                 self.pos += 1;
@@ -428,12 +430,12 @@ impl<'arena, 'input: 'arena> Lexer<'arena, 'input> {
             );
             // SAFETY: start..id_start is valid UTF-8 because we only process valid number characters
             let num = unsafe { str::from_utf8_unchecked(&self.src[start..id_start]) };
-            return Token::Number(num);
+            return Some(Token::Number(num));
         }
 
         // SAFETY: start..self.pos is valid UTF-8 because we only process valid number characters
         let num = unsafe { str::from_utf8_unchecked(&self.src[start..self.pos]) };
-        Token::Number(num)
+        Some(Token::Number(num))
     }
 
     fn scan_identifier_or_keyword(&mut self, start: usize) -> Token<'arena> {
